@@ -373,6 +373,65 @@ fn main() {
         return;
     }
     let seed: u64 = args.get(1).and_then(|s| s.parse().ok()).unwrap_or(1);
+    if seed % 4 == 2 {
+        // Family "keying race": every thread keys fresh block generators from its own distinct seeds at the same
+        // moment (the expensive key schedules are where a process-wide cache would sit); afterwards, with the
+        // threads gone, the same seeds are keyed again alone and must give what they gave before the threads.
+        let mut rng = Prng::new(prng::h2(seed, 0xC192));
+        let threads = rng.range(2, 3) as usize;
+        let per = rng.range(2, 3) as usize;
+        let seeds: Vec<Vec<(u8, u64)>> = (0..threads).map(|_| (0..per).map(|_| (rng.below(3) as u8, rng.u64())).collect()).collect();
+        fn first_words(kind: u8, s: u64) -> [u64; 3] {
+            match kind {
+                0 => {
+                    let mut g = rand_hc::Hc128Rng::seed_from_u64(s);
+                    [g.next_u64(), g.next_u64(), g.next_u64()]
+                }
+                1 => {
+                    let mut g = rand_isaac::IsaacRng::seed_from_u64(s);
+                    [g.next_u64(), g.next_u64(), g.next_u64()]
+                }
+                _ => {
+                    let mut k = [0u8; 32];
+                    k[..8].copy_from_slice(&s.to_le_bytes());
+                    let mut g = rand_hc::Hc128Rng::from_seed(k);
+                    [g.next_u64(), g.next_u64(), g.next_u64()]
+                }
+            }
+        }
+        let before: Vec<Vec<[u64; 3]>> = seeds.iter().map(|t| t.iter().map(|(k, s)| first_words(*k, *s)).collect()).collect();
+        let barrier = Arc::new(Barrier::new(threads));
+        let hs: Vec<_> = seeds
+            .iter()
+            .cloned()
+            .map(|mine| {
+                let b = barrier.clone();
+                std::thread::spawn(move || {
+                    b.wait();
+                    mine.iter().map(|(k, s)| first_words(*k, *s)).collect::<Vec<_>>()
+                })
+            })
+            .collect();
+        let during: Vec<Vec<[u64; 3]>> = hs.into_iter().map(|h| h.join().expect("thread panicked")).collect();
+        let after: Vec<Vec<[u64; 3]>> = seeds.iter().map(|t| t.iter().map(|(k, s)| first_words(*k, *s)).collect()).collect();
+        let mut bad = 0;
+        for t in 0..threads {
+            for k in 0..per {
+                if during[t][k] != before[t][k] || after[t][k] != before[t][k] {
+                    println!(
+                        "MISMATCH scenario_seed={} thread={} instance={} keyed from {:?}: alone {:x?}, while the other threads were keying {:x?}, alone afterwards {:x?}",
+                        seed, t, k, seeds[t][k], before[t][k], during[t][k], after[t][k]
+                    );
+                    bad += 1;
+                }
+            }
+        }
+        if bad > 0 {
+            std::process::exit(3);
+        }
+        println!("ok scenario_seed={} family=keying_race", seed);
+        return;
+    }
     if seed % 4 == 3 {
         if shared_reference_scenario(seed) {
             println!("ok scenario_seed={} family=shared_reference", seed);
